@@ -7,7 +7,7 @@ from harness import core
 from harness.core import cN, clist, cnat, copt, ctuple
 
 HEADER = ('From Coq Require Import List ZArith NArith.\n'
-          'From PC Require Import Base.Outcome Model.IndexTable Model.PrimCtor Check.PrimCase Check.C09.\n'
+          'From PC Require Import Base.Outcome Model.IndexTable Model.PrimCtor Model.PrimLoad Check.PrimCase Check.C09.\n'
           'Import ListNotations.\n')
 CASE_TYPE = 'C09.case'
 
@@ -235,6 +235,14 @@ def param_forms(rng, case, clean):
             case['srcs'][i][1] = nc + extra
     if names:
         case['pnames'] = names
+    # the accessor's stride / offset / count attributes are read by nobody (modelled convention):
+    # write arbitrary ones on some sources
+    attrs = {}
+    for i, (n, nc) in enumerate(case['srcs']):
+        if rng.random() < 0.15:
+            attrs[str(i)] = [rng.choice([0, 1, nc + 1, 7]), rng.choice([0, 1, 2]), rng.choice([0, n + 1, 99])]
+    if attrs:
+        case['acc_attrs'] = attrs
 
 
 SOURCE_FORMS = {1: ['std', 'unnamed'], 2: ['std', 'uv', 'unnamed', 'partial'],
@@ -361,6 +369,16 @@ def c_case(case, res):
                                                  cnat(case['ncomp']), cnat(res['code']), acc_c)
     if case['kind'] == 'source':
         return '(CSource %s %s %s)' % (cnat(case['n']), cnat(case['ncomp']), cnat(res['code']))
+    if case['via'] == 'xml':
+        pn = case.get('pnames') or {}
+        at = case.get('acc_attrs') or {}
+        srcs = []
+        for i, (n, nc) in enumerate(case['srcs']):
+            stp = pn.get(str(i)) == ['S', 'T', 'P']
+            a = at.get(str(i)) or [3 if stp else nc, 0, n]
+            srcs.append(ctuple(cnat(n), cnat(nc), core.cbool(stp), ctuple(cnat(a[0]), cnat(a[1]), cnat(a[2]))))
+        return '(CPrimLoad %s %s %s %s %s %s %s)' % (KIND_C[case['kind']], clist(srcs), c_inputs(case), c_mat(case),
+                                                     c_stream(case), cnat(res['code']), c_acc(res['acc']))
     return '(CPrim %s %s %s %s %s %s %s)' % (KIND_C[case['kind']], c_srcs(case), c_inputs(case), c_mat(case),
                                              c_stream(case), cnat(res['code']), c_acc(res['acc']))
 
